@@ -495,3 +495,50 @@ pub fn digest_error(e: lexpr::parse::Error, seen: &Seen<'_>, fired: &[Fired], mo
     });
     PErr { cat, msg, loc, io_id: conv_id.or(src_id) }
 }
+
+
+// ---------------------------------------------------------------------------
+// in-process hang watchdog
+
+static LAST_BEAT_MS: std::sync::atomic::AtomicU64 = std::sync::atomic::AtomicU64::new(0);
+static WATCHDOG_EPOCH: std::sync::OnceLock<std::time::Instant> = std::sync::OnceLock::new();
+
+/// Exit status of a process that its own watchdog stopped.
+pub const HANG_EXIT: i32 = 86;
+
+/// Called at the start of every API call of every scenario (and by the
+/// minimiser per candidate): "still making progress".
+#[inline]
+pub fn beat() {
+    if let Some(t0) = WATCHDOG_EPOCH.get() {
+        LAST_BEAT_MS.store(t0.elapsed().as_millis() as u64, std::sync::atomic::Ordering::Relaxed);
+    }
+}
+
+/// Start a thread that ends the process with `HANG_EXIT` when no API call has
+/// started for `limit`: a single call of a healthy library takes microseconds to
+/// milliseconds, so this only ever fires on a call that does not return without
+/// reading or writing (those are caught by the I/O budgets first). Like the
+/// parent's backstop this consults wall time, and like it, it can only turn a
+/// non-returning call into a report, never a healthy run into a violation: the
+/// run is re-executed alone before anything is reported.
+pub fn start_watchdog(limit: std::time::Duration) {
+    let t0 = *WATCHDOG_EPOCH.get_or_init(std::time::Instant::now);
+    beat();
+    std::thread::spawn(move || loop {
+        std::thread::sleep(std::time::Duration::from_millis(250));
+        let last = LAST_BEAT_MS.load(std::sync::atomic::Ordering::Relaxed);
+        let now = t0.elapsed().as_millis() as u64;
+        if now.saturating_sub(last) > limit.as_millis() as u64 {
+            use std::io::Write;
+            let mut o = std::io::stdout().lock();
+            let _ = writeln!(o, "X");
+            let _ = o.flush();
+            std::process::exit(HANG_EXIT);
+        }
+    });
+}
+
+pub fn op_hang_limit() -> std::time::Duration {
+    std::time::Duration::from_secs(std::env::var("VERIF_OP_HANG_S").ok().and_then(|s| s.parse().ok()).unwrap_or(20))
+}
